@@ -93,10 +93,13 @@ def iter_forest_fragments(G, pieces, start="<start>", mode=ParsingMode.COMPLETE)
 # reference 1: membership of a str word for grammars whose terminals are str literals
 # --------------------------------------------------------------------------------------------
 UNBOUNDED = 10**6
+COMPUTED_REP_IDS = set()  # ids of {expr} repetitions (filled by harnesses from the spec's RepetitionBoundsConstraints)
 
 
 def rep_bounds(node):
     """declared bounds of a repetition node: * and + are unbounded above"""
+    if getattr(node, "bounds_constraint", None) is not None or node.id in COMPUTED_REP_IDS:
+        return 0, UNBOUNDED  # computed bound {expr}: the count is the business of the generated constraint (C02)
     if isinstance(node, (Star, Plus)):
         return node.min, UNBOUNDED
     hi = node.internal_max
